@@ -45,6 +45,13 @@ class P(b1.Plugin):
         noise = [t for t in ("Debug",) if rng.random() < 0.35]
         if not with_eq and rng.random() < 0.3:
             noise.append("PartialEq")
+        if kind == "enum" and len(td.variants) >= 2 and rng.random() < 0.4:
+            # written discriminants (the fed variant tag is the position, whatever is written)
+            all_unit = all(v.shape == "unit" for v in td.variants)
+            r = rng.choice([None, "u8", "i32", "isize", "u16"]) if all_unit else rng.choice(["u8", "i32", "isize", "u16"])
+            gen.assign_discriminants(rng, td)
+            if r:
+                td.attr_src.append("#[repr(%s)]" % r)
         td.type_spelling = True
         gen.finalize_attrs(rng, td, noise)
         return td
